@@ -117,6 +117,30 @@ def worker(unit, emit):
                     if row == 'isbn.to_isbn13' or row == 'isbn.to_isbn10':
                         e['invwant'] = lib.cps(v)
                 evs.append(e)
+                # the inverse conversion must not depend on separators either: the converted number respelled with a blank in
+                # the middle and in the formatted layout of its own module (kept only when that module's compact() maps the
+                # respelling back to the converted number)
+                if inv and wtxt is not None and x == v and len(wtxt) > 3:
+                    im = lib.module(inv[0])
+                    respell = [wtxt[:len(wtxt) // 2] + ' ' + wtxt[len(wtxt) // 2:], ' ' + wtxt + ' ']
+                    try:
+                        if hasattr(im, 'format'):
+                            respell.append(im.format(wtxt))
+                    except Exception:
+                        pass
+                    for y in dict.fromkeys(respell):
+                        try:
+                            if y == wtxt or not hasattr(im, 'compact') or im.compact(y) != im.compact(wtxt):
+                                continue
+                        except Exception:
+                            continue
+                        r1 = lib.call(getattr(im, inv[1]), y)
+                        if r1['k'] == 'ret' and r1['t'] == 'str' and row not in ('pe.cui.to_ruc',):
+                            r2 = lib.call(src.validate, lib.from_cps(r1['v']))
+                        else:
+                            r2 = r1
+                        evs.append(dict(e, inv=sl(r2)))
+                        emit.count('inverse_on_respelled_target')
             emit.trace(evs, {'m': srcn, 'w': v, 'how': '%s %s' % (row, json.dumps(kw)), 'site': '',
                              'results': [lib.from_cps(e['w']['v']) if e['w']['k'] == 'ret' else e['w']['k'] for e in evs][:4]})
             emit.count('conversions', len(evs))
